@@ -25,6 +25,64 @@ CHECKS = {
     },
 }
 
+def _add(cid, technique, rule, level_text, level_note, level="exploration", assumptions=None, **kw):
+    CHECKS[cid] = dict(level=level, technique=technique, rule=rule, level_text=level_text, level_note=level_note,
+                       assumptions=COMMON_ASSUMPTIONS + (assumptions or []), **kw)
+
+SIM_ASSUMPTIONS = [
+    "the simulation runs the production PeerHandler/Session/Peer code; only Session::event_loop and spawn_peer_listener are replaced by hook-side mirrors (verif_event_loop / verif_spawn_mem_listener) and TCP by tokio::io::duplex",
+    "tokio's paused clock (test-util) advances only when every task is idle, so virtual time is exact and load-independent; wall-clock watchdogs only ever yield 'inconclusive'",
+    "internal randomness of the code under test (thread_rng, HashMap order, select! branch choice) is not seedable: oracles accept every legal outcome",
+]
+
+_add("C02",
+     "runtime monitoring of the real session in a deterministic simulation: scripted honest swarm, bounded-progress oracle in virtual time, file-system oracle on the result, panic capture",
+     "seeded scenarios: consistent torrent geometry (piece length around 16 KiB boundaries and tiny, 1..30 pieces, single/multi-file incl. zero-length and sub-piece files), 1..6 honest seeders whose piece sets cover everything (choke/unchoke cycles, latencies, Have-instead-of-Bitfield, byte-wise segmentation, small pipes), 0..9 non-essential peers that disconnect at random points (mid-frame, on request, after k blocks, at a time), 0..3 tracker failures, failpoints armed in half of the runs. Distinct non-trivial = distinct (geometry class, manager interleaving signature) pairs, the signature being the hash of the (peer, command kind) sequence the manager handled.",
+     "Exploration: every scenario is a full download by the real manager and connection tasks; the oracle demands completion within a virtual-time bound (600 s + 360 s per peer), byte-identical output files, only valid piece files, no panic in any task and a manager that still answers. Liveness is decided as bounded progress only.",
+     "Trusted: scripted peers/tracker of the harness, the event-loop mirror, tokio's paused clock. Unbounded 'eventually' is restated as a virtual-time bound.",
+     assumptions=SIM_ASSUMPTIONS)
+_add("C03",
+     "file-system oracle over executions of the real Extractor: exhaustive small-scope enumeration of layouts + seeded random geometries, reference piece/file arithmetic",
+     "quick: all layouts with piece length 1..4 (thorough: 1..6), 1..4 files, every file length 0..2p+1, single- and multi-file (enumerated, by-construction distinct) plus seeded random geometries (piece length up to 40000, up to 8 files, sub-directories, unicode names). Each case pre-fills a scratch directory with valid piece files, runs Extractor::run and compares every resulting file with content[offset..offset+len]; piece_length(i) is compared with the reference partition.",
+     "Exploration with an exhaustive small-scope core: every way of placing up to 4 files of length 0..2p+1 relative to piece boundaries for p<=4 (6) is executed, which covers all boundary relations (start/end inside, on, across pieces; several files inside one piece; zero-length anywhere); larger sizes are sampled.",
+     "Trusted: reference arithmetic in harness/src/torrent.rs; the local file system.")
+_add("C04",
+     "file-system canary oracle around executions of the real Extractor on hostile name/path strings",
+     "seeded hostile torrents: name and per-file paths drawn from a grammar over '..', '.', '', plain/unicode components, leading '/', absolute paths into the sandbox, trailing '/', up to 4 components. The extractor runs in R/a/b/c/d/e/cwd with canary files in every ancestor; a recursive listing (names, sizes, SHA-1) of R outside cwd before and after must be identical. Only cases whose lexical worst case stays inside R are executed (safety of the check itself). Distinct non-trivial = distinct (name, paths) tuples containing '..' or a leading '/'.",
+     "Exploration: hundreds (quick) to thousands (thorough) of hostile path shapes are actually executed against the real extractor and judged by what appears on disk; refusal and neutralisation both satisfy the oracle.",
+     "Trusted: the lexical pre-check that keeps every executed case inside the scratch root; the local file system (no symlinks in the sandbox).")
+_add("C05",
+     "runtime oracle with generator-known ground truth: documents are emitted byte by byte so the top-level info span is known; info_hash() and the raw finder are compared with SHA-1 of that span",
+     "seeded documents: info dictionary with required keys plus extras (incl. a nested key spelled 'info', binary strings, a name '4:info'), canonical or shuffled key order, zero-padded string lengths; top level with extra keys before/after info (nested dictionaries containing a key 'info' one and two levels deep, lists of such dictionaries, strings containing '4:info'), sorted or shuffled, optional trailing values. Distinct non-trivial = distinct accepted documents that have at least one of those shapes.",
+     "Exploration: 2e4 (quick) / 5e5 (thorough) generated documents through the real parser; a hash taken over anything but the exact top-level span (re-canonicalised, wrong nesting level, wrong terminator) is detected whenever the generated shape exercises it.",
+     "Trusted: the generator's bookkeeping of the span. Rejected documents are not judged (the property speaks about accepted ones).")
+_add("C07",
+     "differential runtime oracle: rdest message constructors/serialiser/Frame::parse vs. the harness' independent BEP3 codec; exhaustive bit-vector enumeration for bitfields",
+     "seeded messages of all 11 kinds with boundary-biased u32 fields (0,1,2^14,2^16-1,2^31,2^32-1), payload lengths 0..65527 biased to both ends, random 20-byte hashes/ids, with and without trailing junk; all bit vectors of length 0..16 (enumerated) and random ones up to 4096. Distinct non-trivial = distinct encodings of messages that carry fields + enumerated bit vectors.",
+     "Exploration with an exhaustive bitfield core: byte layout, field endianness, consumed length and bit order are compared against an independent encoder for 2e5 (quick) / 5e6 (thorough) messages.",
+     "Trusted: harness/src/wire.rs. Message id 0x54 is never generated as an ordinary id (the code uses byte 4 == 'T' to sniff a handshake).")
+_add("C13",
+     "reference-model oracle over direct executions of the real choose_piece_index through hooks: exhaustive small-scope enumeration + seeded states on both sides of the end-game threshold",
+     "all (status vector, peer set, advertised sets) with 1..4 pieces, statuses in {Missing,Reserved,Have}, 1..3 peers, every asking peer, 2 (quick) / 4 (thorough) repetitions for the shuffle (enumerated), plus seeded states with 8..40 pieces, 1..12 peers and the number of lacking pieces concentrated around 10. States are built through real RecvBitfield commands. The pick must lie in the reference set of legal rarest-first picks; nothing is picked iff that set is empty. Distinct non-trivial = enumerated states + distinct random states.",
+     "Exploration with an exhaustive small-scope core (all states up to 4 pieces / 3 peers, below the end-game threshold) and sampling of larger states on both sides of the threshold; tie-break coverage is measured (tie classes in which several distinct members were picked).",
+     "Trusted: the 15-line reference chooser; verif_set_status pokes statuses directly (peer state is built with real commands).")
+_add("C14",
+     "online invariant monitor over histories of real manager commands (direct-drive through hooks) with a fold of the choke/unchoke messages the manager emits",
+     "seeded histories of real commands (bitfield arrivals, Interested/NotInterested, SyncStats with rate vectors incl. heavy ties, rotations; 0..40 peers, 3..8 rotation rounds). After every command: regular unchoked <= 10, optimistic <= 1, the fold of emitted Choke/Unchoke per peer alternates and equals the manager's am_choked; after every rotation that was carried out: no unchoked uninterested peer, no choked interested peer with a strictly higher rate than a regular slot holder. Distinct non-trivial = distinct histories.",
+     "Exploration: 8e3 (quick) / 4e5 (thorough) histories, every intermediate manager state is checked (about 50 snapshots per history).",
+     "Trusted: the fold assumes the connection task transmits exactly what the manager's commands say (that translation is covered by the simulation checks).")
+_add("C17",
+     "runtime oracle with generator-known ground truth + panic capture: accessor values vs. the generated document, every accessor exercised on every accepted input, create/parse round trip on real files",
+     "seeded well-formed documents (extra keys, shuffled order, single/multi-file, piece length and file lengths incl. 0, 1, i64::MAX and random 63-bit values, 0..6 piece hashes), mutated torrents and delimiter soup for totality, and files of sizes {0,1,2^18-1,2^18,2^18+1,2*2^18,...} with plain/space/unicode names for the create round trip. Distinct non-trivial = distinct accepted geometries/documents.",
+     "Exploration: 7e4 (quick) / 2.5e6 (thorough) documents through the real parser; on every accepted one every accessor is called for every valid index under panic capture.",
+     "Trusted: generator ground truth. Refusing a document is always accepted (only faithfulness of successful parses and safety are judged).")
+_add("C19",
+     "differential runtime oracle for reply parsing (generator-classified entries) + fault-sequence enumeration against the real session in the simulation with a gated scripted tracker",
+     "replies: seeded peer lists whose entries are classified by the generator as clearly well-formed / clearly malformed (wrong type, wrong id length, negative port, non-UTF-8 ip, non-dict) / unclear (port > 65535), optional failure reason, extra keys, shuffled; mutated replies and delimiter soup for totality. Fault sequences: see coverage.fault_sequences. Distinct non-trivial = distinct replies with at least one non-good entry + distinct fault sequences.",
+     "Fault enumeration: all sequences over {transport error, HTTP-style error, garbage body, failure reason} up to length 3 and selected long ones are played by a scripted tracker against the real manager; the oracle is causal (probe connection answered while the tracker keeps failing; listed peers contacted after the first good reply).",
+     "Trusted: the scripted tracker stands in for TrackerClient::run (same channel protocol); the real HTTP client is exercised only by C18 and the real-process layer.",
+     level="fault_enumeration", assumptions=SIM_ASSUMPTIONS)
+
 NOT_APPLICABLE = []
 
 HOOK_COMMITS = ['f4e11fff6207578681bfe159fde132435a75db6b', 'c80cd8e781736d9cf047ae63c4117d911e79b492', '36e923c803e32367e0b9567db19ed45c7e679e57', 'd4d0caac768fbc161be45a56b818f54b8f8544b7', '18ace6ea4c44e4f9b55cbb2adc1f6155c1036680']
